@@ -306,7 +306,8 @@ def part_b(ctx):
 
     run("vcf2zarr", "dexplode-partition", P("d2.icf"), "0")
     t0 = tree(P("d2.icf"))
-    for argv in (("explode", vcf, P("d2.icf"), "-Q", "-p", "0"), ("dexplode-init", vcf, P("d2.icf"), "-n", "2", "-Q", "-p", "0")):
+    for argv in (("explode", vcf, P("d2.icf"), "-Q", "-p", "0"), ("dexplode-init", vcf, P("d2.icf"), "-n", "2", "-Q", "-p", "0"),
+                 ("dexplode-init", vcf, P("d2.icf"), "-n", "2", "-Q", "-p", "0", "--json")):      # no output option is a licence to overwrite
         for answer in ("n\n", "\n"):
             rc, out = run("vcf2zarr", *argv, inp=answer)
             check(f"{argv[0]} onto an unfinished intermediate store, declined, leaves it intact", rc != 0 and tree(P("d2.icf")) == t0, out)
@@ -337,7 +338,7 @@ def part_b(ctx):
         run("vcf2zarr", "dencode-partition", P("d.vcz"), str(j))
     t0 = tree(P("d.vcz"))
     for argv in (("encode", P("d.icf"), P("d.vcz"), "-Q", "-p", "0"), ("dencode-init", P("d.icf"), P("d.vcz"), "-n", "2", "-Q"),
-                 ("convert", vcf, P("d.vcz"), "-Q", "-p", "0")):
+                 ("dencode-init", P("d.icf"), P("d.vcz"), "-n", "2", "-Q", "--json"), ("convert", vcf, P("d.vcz"), "-Q", "-p", "0")):
         rc, out = run("vcf2zarr", *argv, inp=r.choice(["n\n", "\n"]))
         check(f"{argv[0]} onto an unfinished store, declined, leaves it intact", rc != 0 and tree(P("d.vcz")) == t0, out)
     rc, out = run("vcf2zarr", "dencode-finalise", P("d.vcz"), "-Q")
